@@ -209,7 +209,11 @@ impl BlockingManager {
         let client = {
             let mut registry = self.registries[db].write().unwrap();
             match registry.pop_first_waiter(key) {
-                Some(c) => c,
+                Some(c) => {
+                    // The client is about to be served: drop its registrations on its other keys
+                    registry.unregister_client(c.conn_id);
+                    c
+                }
                 None => return, // No clients waiting on this key
             }
         };
